@@ -16,7 +16,17 @@ def _tmpdir():
     os.makedirs(d, exist_ok=True)
     return d
 
+_TIMEOUTS = [0]     # timeouts seen in this process: after the first one the budget per batch shrinks (a change that makes the code hang on a class of
+                    # inputs must not make the check run for hours: every hanging case is reported, each costs seconds)
+
+MAX_TIMEOUTS = 12
+
+def _budget(nlines, timeout):
+    if _TIMEOUTS[0] == 0: return min(timeout, 30 + 0.05 * nlines)
+    return min(timeout, 6 + 0.01 * nlines)
+
 def _run_file(exe, lines, timeout):
+    timeout = _budget(len(lines), timeout)
     fd, path = tempfile.mkstemp(suffix=".cases", dir=_tmpdir())
     with os.fdopen(fd, "w") as f:
         f.write("\n".join(lines) + "\n")
@@ -29,7 +39,8 @@ def _run_file(exe, lines, timeout):
     except subprocess.TimeoutExpired as e:
         out = (e.stdout or b"").decode("latin-1").split("\n")
         if out and out[-1] == "": out.pop()
-        return out, -9, "TIMEOUT after %ss" % timeout
+        _TIMEOUTS[0] += 1
+        return out, -9, "TIMEOUT after %ss: the case did not terminate" % timeout
     finally:
         os.remove(path)
 
@@ -41,6 +52,9 @@ def run_impl(exe, lines, timeout=600):
     i = 0
     n = len(lines)
     while i < n:
+        if _TIMEOUTS[0] >= MAX_TIMEOUTS:
+            # enough cases that do not terminate have been found: the remaining ones are not run
+            res.extend([("CRASH", -9, "TIMEOUT after 0s: not run, %d earlier cases did not terminate" % _TIMEOUTS[0])] * (n - i)); break
         out, rc, err = _run_file(exe, lines[i:], timeout)
         if rc == 0 and len(out) == n - i:
             res.extend(out); break
